@@ -66,12 +66,13 @@ def rule_r1_r2(ctx: Ctx) -> None:
         ("ns.sub.b", (2, 0), [A, Blow], Blow),
     ]
     bad_table, bad_read, bad_vis, bad_cls = [], [], [], []
-    for ref, ver, lookups, want in cases:
+    for case_no, (ref, ver, lookups, want) in enumerate(cases):
         del w.log[:]
         for d in w.defs:
             d.__dict__["composite_type"] = None
         vis = R.VisitorLog()
-        o = R.resolve(ctx, A, lookups, ref, ver[0], ver[1], visitors=[vis])
+        allow_here = case_no % 2 == 0  # both settings of the port-ID policy occur among the cases (also across root namespaces)
+        o = R.resolve(ctx, A, lookups, ref, ver[0], ver[1], visitors=[vis], allow_unregulated=allow_here)
         ctx.count()
         label = "%s.%d.%d among %s" % (ref, ver[0], ver[1], [d.label for d in lookups])
         if isinstance(want, str):
@@ -90,7 +91,7 @@ def rule_r1_r2(ctx: Ctx) -> None:
         ok = len(reads) == 1 and reads[0][1] is want and not others
         if ok:
             _, _, lk, vs, handler, allow, kw = reads[0]
-            ok = [id(x) for x in lk] == [id(x) for x in lookups] and list(vs) == [vis] and handler is o["handler"] and allow is True
+            ok = [id(x) for x in lk] == [id(x) for x in lookups] and list(vs) == [vis] and handler is o["handler"] and allow is allow_here
         if not ok:
             bad_read.append({"reference": label, "reads": [e[1].label for e in reads], "other accesses": [(e[1].label, e[0]) for e in others]})
         if [(a is A, b is want) for a, b in vis.calls] != [(True, True)]:
